@@ -251,6 +251,8 @@ class Tr:
                     a1, a2 = "(inject_Z %s)" % t1, "(inject_Z %s)" % t2
                 v = self.fresh()
                 return b1 + b2 + [(v, "py_qdiv %s %s" % (a1, a2))], v, "Q"
+            if op is ast.Add and ty1.startswith("list:") and ty2.startswith("list:") and (ty1 == ty2 or "list:?" in (ty1, ty2)):
+                return b1 + b2, "(%s ++ %s)" % (t1, t2), (ty1 if ty1 != "list:?" else ty2)
             if op in (ast.Add, ast.Sub, ast.Mult):
                 a1, a2, ty = self.num_coerce(t1, ty1, t2, ty2)
                 if ty == "Z":
@@ -550,6 +552,8 @@ class Tr:
             return "do %s <- %s %sself %s; %s" % (pat, f.coq, pre, " ".join(args), nxt(env))
         if isinstance(s, ast.Pass):
             return nxt(env)
+        if isinstance(s, ast.Break) and getattr(self, "break_k", None):
+            return self.break_k(env)
         if isinstance(s, ast.Return):
             if s.value is None:
                 return self.finish(self.none_value())
@@ -677,6 +681,17 @@ class Tr:
             b, t = self.cond(s.test, env)
             if self.always_returns(s.body) and not s.orelse:
                 return "%sif %s then (%s) else (%s)" % (self.binds(b), t, self.block(s.body, env, None), nxt(env))
+            if getattr(self.u, "join_ifs", False) and not s.orelse and not _contains(s.body, (ast.Return, ast.Break, ast.Continue)):
+                # join point: the names (already bound before the `if`) that the branch rebinds are the branch's result
+                carried = sorted(n for n in assigned_names(s.body) if n in env)
+                for n in carried:
+                    if env[n][1] == "list:?":
+                        if n not in self.u.hints:
+                            raise Abort("%s = [] needs a type hint" % n)
+                        env[n] = (env[n][0], self.u.hints[n])
+                pat = _state_tuple(self, carried, env)
+                then_txt = self.block(s.body, dict(env), lambda e2: "Ok %s" % _state_tuple(self, carried, e2))
+                return "%sdo %s <- (if %s then (%s) else Ok %s); %s" % (self.binds(b), "_" if pat == "tt" else pat, t, then_txt, pat, nxt(env))
             # general case: the continuation is duplicated into both branches (local assignments stay branch-local)
             return "%sif %s then (%s) else (%s)" % (self.binds(b), t, self.block(s.body, env, nxt), self.block(s.orelse, env, nxt))
         raise Abort("statement `%s`" % ast.unparse(s).split("\n")[0])
@@ -720,6 +735,17 @@ def _contains(stmts, kinds):
     return any(isinstance(n, kinds) for st in stmts for n in ast.walk(st))
 
 
+def _contains_own(stmts, kinds):
+    """like _contains, but break / continue inside a nested loop belong to that loop (only a return escapes it)"""
+    def walk(n):
+        if isinstance(n, kinds):
+            return True
+        if isinstance(n, (ast.For, ast.While)):
+            return ast.Return in kinds and _contains(n.body + n.orelse, (ast.Return,))
+        return any(walk(c) for c in ast.iter_child_nodes(n))
+    return any(walk(st) for st in stmts)
+
+
 def for_loop(self, s, env, rest, rest_k):
     if s.orelse or not isinstance(s.target, ast.Name):
         raise Abort("for loop shape: %s" % ast.unparse(s).split("\n")[0])
@@ -741,7 +767,7 @@ def for_loop(self, s, env, rest, rest_k):
     if body and isinstance(body[-1], ast.If) and not body[-1].orelse and len(body[-1].body) == 1 and isinstance(body[-1].body[0], ast.Break):
         brk = body[-1].test
         body = body[:-1]
-    if _contains(body, (ast.Break, ast.Continue, ast.Return)):
+    if _contains_own(body, (ast.Break, ast.Continue, ast.Return)):
         raise Abort("break / continue / return inside a for loop (other than a final `if c: break`)")
     carried = sorted(n for n in assigned_names(body) if n in env)
     for n in carried:
@@ -774,12 +800,29 @@ def while_loop(self, s, env, rest, rest_k):
     if not self.fueled:
         raise Abort("while loop in a function that is not declared fuelled")
     body = list(s.body)
-    if _contains(body, (ast.Break, ast.Continue)):
+    forever = isinstance(s.test, ast.Constant) and s.test.value is True
+    has_break = _contains_own(body, (ast.Break,))
+    if _contains_own(body, (ast.Continue,)) or (has_break and not forever):
         raise Abort("break / continue inside a while loop")
     carried = sorted(n for n in assigned_names(body) if n in env)
+    for n in carried:
+        if env[n][1] == "list:?":
+            if n not in self.u.hints:
+                raise Abort("%s = [] needs a type hint" % n)
+            env[n] = (env[n][0], self.u.hints[n])
     pat = _state_tuple(self, carried, env)
     lam = ("let '%s := st in " % pat) if pat.startswith("(") else ("let %s := st in " % pat if pat != "tt" else "")
-    forever = isinstance(s.test, ast.Constant) and s.test.value is True
+    if forever and has_break:
+        # while True: ...; break  -- the loop is left with the carried state; no return inside
+        if _contains(body, (ast.Return,)):
+            raise Abort("`while True` with both break and return")
+        old_k = getattr(self, "break_k", None)
+        self.break_k = lambda e2: "Ok (inr %s)" % _state_tuple(self, carried, e2)
+        btxt = self.block(body, dict(env), lambda e2: "Ok (inl %s)" % _state_tuple(self, carried, e2))
+        self.break_k = old_k
+        loop = "py_while_ret fuel (fun st => %s%s) %s" % (lam, btxt, pat)
+        after = self.block(rest, env, rest_k)
+        return "do %s <- %s; %s" % ("_" if pat == "tt" else pat, loop, after)
     if forever:
         if rest:
             raise Abort("statements after `while True`")
